@@ -1,5 +1,12 @@
 package main
 
+import (
+	"fmt"
+	"strings"
+
+	"golang.org/x/tools/go/ssa"
+)
+
 func init() {
 	register("C03", "one obligation per flag constant, getter and setter x {true,false} (each exact for all flag values), per tag type, per column, per format constant; non-trivial = needed bit-parallel evaluation, provenance slicing or call-graph reachability", rulesC03, nil)
 }
@@ -14,5 +21,85 @@ func rulesC03(c *Ctx, r *Report) {
 	rulesEntryPoints(c, r, "formats/sam")
 	rulesNoFloatToInt(c, r, "formats/sam")
 	rulesSplitters(c, r, "formats/sam", "\t")
+	rulesSamSkip(c, r)
+	rulesYDPkg(c, r, "formats/sam") // Reader returns exactly the records: a consumer that stops early is obeyed, nothing is yielded after a stop
 	r.floor("REJECT-ONLY", rulesRejectOnly(c, r, c.role("sam.parseLine"), "formats/sam.parseLine", samRejectCfg()), 6, "errors constructed and external error sources in parseLine, parseInts, parseTags, splitTag (7 constructed, Atoi x2, ParseFloat, DecodeString today)")
+}
+
+// rulesSamSkip (SAM-SKIP): whether a line of the input reaches parseLine depends only on the read error, on the
+// line being empty, and on the header test ('@' at the start of its first field) — never on anything else the line
+// holds: every other line is a record, whatever its query name starts with.
+func rulesSamSkip(c *Ctx, r *Report) {
+	rh := c.fn("formats/sam", "ReaderHeader")
+	pl := c.role("sam.parseLine")
+	where := "formats/sam.ReaderHeader"
+	if rh == nil || pl == nil {
+		r.undecided("SAM-SKIP", where, "anchor", "", "ReaderHeader or parseLine not found")
+		return
+	}
+	var f *ssa.Function
+	var call *ssa.Call
+	n := 0
+	cands := family(rh)
+	for _, g := range c.stageFuncs(rh) {
+		if g != rh {
+			cands = append(cands, family(g)...)
+		}
+	}
+	if info := c.iterBody(rh); info != nil && info.f != nil {
+		cands = append(cands, family(info.f)...)
+	}
+	seen := map[*ssa.Function]bool{}
+	for _, g := range cands {
+		if seen[g] {
+			continue
+		}
+		seen[g] = true
+		for _, cl := range staticCallsTo(g, pl) {
+			f, call = g, cl
+			n++
+		}
+	}
+	if n != 1 {
+		r.undecided("SAM-SKIP", where, "parse call", c.pos(rh.Pos()), fmt.Sprintf("expected one parseLine call in the reader, found %d", n))
+		return
+	}
+	r.analysed(fname(f))
+	s := newSymb(f)
+	_, atoms := guardOfFull(s, call.Block(), nil)
+	text := ""
+	if sp, ok := call.Call.Args[0].(*ssa.Call); ok && fnIs(sp.Call.StaticCallee(), "strings", "Split") {
+		text = s.expr(sp.Call.Args[0]).String()
+	}
+	if text == "" {
+		r.undecided("SAM-SKIP", where, "line text", c.pos(call.Pos()), "parseLine does not receive strings.Split(text, …) directly")
+		return
+	}
+	var bad []string
+	sawEmpty := false
+	for _, a := range atoms {
+		a = strings.TrimPrefix(a, "!")
+		switch {
+		case a == "(\"\" == "+text+")" || a == "(\"\" != "+text+")" || a == "(0 == builtin:len("+text+"))" || a == "(0 != builtin:len("+text+"))" || a == "(0 < builtin:len("+text+"))":
+			sawEmpty = true
+		case strings.Contains(a, "ReadString(") && (strings.Contains(a, "nil") || strings.Contains(a, "G:EOF")):
+			// the read error
+		case strings.Contains(a, "call:strings.HasPrefix(") && strings.Contains(a, "\"@\")") && strings.Contains(a, "call:strings.Split("+text):
+			// the header test on the first field
+		case a == "(0 < builtin:len(call:strings.Split("+text+", \"\\t\")))":
+			// there is a first field
+		case a == "(64 == "+text+"[0])" || a == "(64 == call:strings.Split("+text+", \"\\t\")[0][0])":
+			// the header test written on the byte
+		case strings.HasPrefix(a, "call:") && !strings.Contains(a, text):
+			// the consumer's answer to an earlier item (yield) and the like: not about this line
+			if !strings.Contains(a, "FV:") && !strings.Contains(a, "P0(") && !strings.Contains(a, "P1(") {
+				bad = append(bad, a)
+			}
+		default:
+			bad = append(bad, a)
+		}
+	}
+	r.check(len(bad) == 0 && sawEmpty, "SAM-SKIP", where, "what decides skipping", c.pos(call.Pos()),
+		"a line reaches the parser unless it is empty or a header line ('@' at the start of its first field), subject only to the read error",
+		fmt.Sprintf("whether a line is parsed also depends on %v (empty-line test on the line: %v): records with particular contents (e.g. a query name that starts with '#') are dropped silently", bad, sawEmpty))
 }
